@@ -81,9 +81,55 @@ func lateRecv(r *payload.SplitMix, cfg prog.Config) (all []*prog.Script, groups 
 	return all, groups, point
 }
 
-func scenario(id string, seed uint64, late bool) runner.Result {
+// abandoned builds the "abandoned after its metadata" program: a few clean RPCs without metadata,
+// then RPC X with metadata whose goroutine is parked right after the metadata write and cancelled
+// there (so the wire carries its metadata and, under soft cancel, a cancel, but never its invoke),
+// then clean RPCs of which the first carries metadata of its own.
+func abandoned(r *payload.SplitMix, cfg prog.Config) (all []*prog.Script, groups [][]*prog.Script, point string) {
+	tag := uint64(1)
+	groups = make([][]*prog.Script, 2)
+	for i := 0; i < r.Intn(3); i++ {
+		s := prog.GenClean(r, tag, cfg)
+		s.Meta = nil
+		all = append(all, s)
+		groups[0] = append(groups[0], s)
+		tag++
+	}
+	x := prog.GenClean(r, tag, cfg)
+	x.Meta = map[string]string{"rpc": fmt.Sprint(tag), fmt.Sprintf("only-%d", tag): "x"}
+	point = "conn.newstream.afterMeta"
+	if x.Unary {
+		point = "conn.invoke.afterMeta"
+	}
+	all = append(all, x)
+	groups[0] = append(groups[0], x)
+	tag++
+	g := r.Intn(2) // the followers run on the same goroutine or on another one that is already waiting
+	for i := 0; i < 2+r.Intn(3); i++ {
+		s := prog.GenClean(r, tag, cfg)
+		if i == 0 || r.Intn(2) == 0 {
+			s.Meta = map[string]string{"rpc": fmt.Sprint(tag)}
+		} else {
+			s.Meta = nil
+		}
+		all = append(all, s)
+		groups[g] = append(groups[g], s)
+		tag++
+	}
+	if len(groups[1]) == 0 {
+		groups = groups[:1]
+	}
+	return all, groups, point
+}
+
+func scenario(id string, seed uint64, family string) runner.Result {
+	late := family == "late"
 	r := &payload.SplitMix{S: seed}
 	cfg := prog.GenConfig(r, false)
+	if family == "abandoned" && r.Intn(4) != 0 && !cfg.Client.SoftCancel {
+		cfg.Client.SoftCancel, cfg.Server.SoftCancel = true, true
+		cfg.Desc = strings.Replace(cfg.Desc, "soft=false", "soft=true", 1)
+	}
 	nrpc := 3 + r.Intn(10)
 	ngo := 1 + r.Intn(4)
 	groups := make([][]*prog.Script, ngo)
@@ -93,7 +139,11 @@ func scenario(id string, seed uint64, late bool) runner.Result {
 		all, groups, latePoint = lateRecv(r, cfg)
 		nrpc, ngo = len(all), len(groups)
 	}
-	for i := 0; i < nrpc && !late; i++ {
+	if family == "abandoned" {
+		all, groups, latePoint = abandoned(r, cfg)
+		nrpc, ngo = len(all), len(groups)
+	}
+	for i := 0; i < nrpc && family == ""; i++ {
 		var s *prog.Script
 		if r.Intn(2) == 0 {
 			s = prog.GenClean(r, uint64(i+1), cfg)
@@ -134,7 +184,7 @@ func scenario(id string, seed uint64, late bool) runner.Result {
 	defer x.Rig.Teardown()
 	mode := r.Intn(3)
 	var parks []*director.Park
-	if late {
+	if family != "" {
 		mode = 3
 		parks = append(parks, x.Rig.Dir.ParkAt(latePoint, x.Rig.Pair.A, 1))
 	}
@@ -156,7 +206,7 @@ func scenario(id string, seed uint64, late bool) runner.Result {
 			if late {
 				// the first RPC's 'q' ended together with ours: let its receive happen
 				census.Quiesce(rig.Watchdog)
-			} else if r.Intn(3) == 0 {
+			} else if family == "abandoned" || r.Intn(3) == 0 {
 				// the RPC whose goroutine is parked here is abandoned at this very point
 				for _, l := range x.Logs() {
 					if started, done := l.ClientState(); started && !done {
@@ -184,7 +234,6 @@ func scenario(id string, seed uint64, late bool) runner.Result {
 	var stuck []string
 	var events int64
 	hung := false
-	stuckClean := false
 	for _, l := range x.Logs() {
 		s := l.Script
 		evs := l.Snapshot()
@@ -195,9 +244,6 @@ func scenario(id string, seed uint64, late bool) runner.Result {
 				hung = true
 				cleanOK = false
 				stuck = append(stuck, fmt.Sprintf("rpc%d %c:%s", s.Tag, e.Side, e.Op))
-				if s.Clean {
-					stuckClean = true
-				}
 				continue
 			}
 			wantDir := uint8(1)
@@ -266,8 +312,8 @@ func scenario(id string, seed uint64, late bool) runner.Result {
 		}
 		return runner.Violation(id, "isolation:"+strings.Join(f, "-"), hist+"\n"+strings.Join(fails, "\n"))
 	}
-	if hung && allStrict && !closed && stuckClean {
-		return runner.Violation(id, "isolation:rpc-aborted-by-neither-side-never-completes-after-earlier-rpcs", hist+"\nstuck: "+strings.Join(stuck, ", ")+"\n"+census.Dump(snapEnd))
+	if hung && allStrict && !closed {
+		return runner.Violation(id, "isolation:rpc-never-completes-after-earlier-rpcs-in-a-program-that-ends-by-itself", hist+"\nstuck: "+strings.Join(stuck, ", ")+"\n"+census.Dump(snapEnd))
 	}
 	if hung {
 		return runner.Inconcl(id, "a call of the program never returned (progress is decided by C04/C05/C06): "+hist+"\nstuck: "+strings.Join(stuck, ", ")+"\n"+census.Dump(snapEnd))
@@ -322,12 +368,17 @@ func gen(tier string, seed uint64) []runner.Scenario {
 	for i := 0; i < n; i++ {
 		i := i
 		id := fmt.Sprintf("prog/%d", i)
-		out = append(out, runner.Scenario{ID: id, Run: func() runner.Result { return scenario(id, payload.Hash(seed, 0xC02, uint64(i)), false) }})
+		out = append(out, runner.Scenario{ID: id, Run: func() runner.Result { return scenario(id, payload.Hash(seed, 0xC02, uint64(i)), "") }})
 	}
 	for i := 0; i < n/10; i++ {
 		i := i
 		id := fmt.Sprintf("late-recv/%d", i)
-		out = append(out, runner.Scenario{ID: id, Run: func() runner.Result { return scenario(id, payload.Hash(seed, 0xC02A, uint64(i)), true) }})
+		out = append(out, runner.Scenario{ID: id, Run: func() runner.Result { return scenario(id, payload.Hash(seed, 0xC02A, uint64(i)), "late") }})
+	}
+	for i := 0; i < n/10; i++ {
+		i := i
+		id := fmt.Sprintf("abandoned-after-metadata/%d", i)
+		out = append(out, runner.Scenario{ID: id, Run: func() runner.Result { return scenario(id, payload.Hash(seed, 0xC02B, uint64(i)), "abandoned") }})
 	}
 	return out
 }
@@ -336,7 +387,7 @@ func main() {
 	runner.Main(runner.Check{
 		Property: "C02",
 		Level:    "exploration",
-		Rule:     "one case = one program of 3-12 RPCs (clean shapes and early-ending kinds at seeded positions, some handlers that keep sending after the client left) issued by 1-4 goroutines on one connection, in a seeded configuration cell, under one of: perturbed scheduling, the client goroutine of later RPCs parked at one of 6 internal points until everything earlier RPCs left behind has been delivered, or plain; plus the late-first-receive family (an RPC whose first receive happens only after it has finished on the wire and the next RPC of another goroutine sits at an internal point with frames written but not flushed). Every delivered message carries (rpc tag, direction, sequence, checksum); handler errors carry their rpc number. Non-trivial: all cases. Distinct: by configuration and program text; evidence also counts distinct point-hit sequences.",
+		Rule:     "one case = one program of 3-12 RPCs (clean shapes and early-ending kinds at seeded positions, some handlers that keep sending after the client left) issued by 1-4 goroutines on one connection, in a seeded configuration cell, under one of: perturbed scheduling, the client goroutine of later RPCs parked at one of 6 internal points until everything earlier RPCs left behind has been delivered, or plain; plus the late-first-receive family (an RPC whose first receive happens only after it has finished on the wire and the next RPC of another goroutine sits at an internal point with frames written but not flushed) and the abandoned-after-metadata family (an RPC with metadata cancelled between its metadata write and its invoke write, followed by RPCs with their own metadata). Every delivered message carries (rpc tag, direction, sequence, checksum); handler errors carry their rpc number. Non-trivial: all cases. Distinct: by configuration and program text; evidence also counts distinct point-hit sequences.",
 		Assumptions: []string{
 			"a clean RPC must succeed completely only if the connection never reported closed during the program (a hard cancel closes it legitimately)",
 			"a call that never returns makes the case inconclusive here (C04/C05/C06 decide progress)",
